@@ -19,7 +19,7 @@ ASSUMPTIONS = ["thresholds: |z| <= 6.5 for means / covariances / proportions (fa
                "valid proportions are dyadic so that their floating-point sum is exactly 1 (the code tests equality)"]
 EVAL_COUNTER = "calls"
 REQUIRED = {"quick": {"calls": 60, "gmm_calls": 25, "gmm_1d_calls": 5, "student_calls": 8, "gstm_calls": 6, "celeux_one_calls": 6,
-                      "celeux_two_calls": 6, "z_tests": 1500, "ks_tests": 30, "invalid_rejected": 12, "determinism_checks": 60},
+                      "celeux_two_calls": 6, "z_tests": 1500, "ks_tests": 30, "invalid_rejected": 12, "indefinite_covariances_tried": 40, "determinism_checks": 60},
             "thorough": {"calls": 500, "z_tests": 12000}}
 SHARD_TIMEOUT = {"quick": 1200, "thorough": 7000}
 ZMAX = 6.5
@@ -132,9 +132,39 @@ def run_case(case, ctx, st):
                 ctx.violation("invalid-parameters", f"invalid-mixture-accepted/{tag}", observed="returned", expected="raises")
             except Exception:
                 ctx.count("invalid_rejected")
-        for s in range(3):
-            for tag, fn in bad[:1]:
-                pass
+        # covariances that are not positive semi-definite, in every dimension: one clearly negative eigenvalue hidden in
+        # a random basis (all diagonal entries and all 2x2 minors may well be positive), and correlation patterns that
+        # no distribution has (0.9, 0.9, -0.9)
+        rng = gen.rng_for(case["seed"], ID, "invalid", 0)
+        for t in range(60):
+            d = int(rng.integers(2, 7))
+            if t % 6 == 0 and d >= 3:
+                C = np.eye(d)
+                r = float(rng.uniform(0.75, 0.95))
+                C[0, 1] = C[1, 0] = C[0, 2] = C[2, 0] = r
+                C[1, 2] = C[2, 1] = -r
+                lam_neg = float(np.min(np.linalg.eigvalsh(C)))
+            else:
+                Q, _ = np.linalg.qr(rng.normal(size=(d, d)))
+                lam = rng.uniform(0.5, 2.0, size=d)
+                lam_neg = -float(rng.choice([1e-3, 0.02, 0.1, 0.3, 1.0]))
+                lam[int(rng.integers(0, d))] = lam_neg
+                C = (Q * lam) @ Q.T
+                C = (C + C.T) / 2
+            C = C * float(10 ** rng.uniform(-1, 1))
+            pos = int(rng.integers(0, 2))
+            covs = [np.eye(d), np.eye(d)]
+            covs[pos] = C
+            ctx.case = dict(case, probe="gmm-indefinite-covariance", d=d, t=t)
+            ctx.count("indefinite_covariances_tried")
+            try:
+                draw_gmm(50, [np.zeros(d), np.ones(d)], covs, [0.5, 0.5], random_state=0)
+                ctx.violation("invalid-parameters", "invalid-mixture-accepted/gmm-indefinite-covariance",
+                              observed={"d": d, "smallest_eigenvalue": float(np.min(np.linalg.eigvalsh(C))), "component": pos,
+                                        "diagonal_min": float(np.min(np.diag(C)))}, expected="raises")
+                break
+            except Exception:
+                ctx.count("invalid_rejected")
         return
     i = case["i"]
     rng = gen.rng_for(case["seed"], ID, "call", i)
